@@ -195,6 +195,10 @@ func (ec *evalCtx) ident(name string) (TV, error) {
 	if tv, ok := ec.bind[name]; ok {
 		return tv, nil
 	}
+	if (strings.HasPrefix(name, "$done@") || strings.HasPrefix(name, "$iter@")) && ec.fr != nil {
+		// $done@callee / $iter@callee: the loop named by a call in its body
+		name = fmt.Sprintf("%s%d", name[:5], ec.fr.anchorOrdinal(name[6:]))
+	}
 	if strings.HasPrefix(name, "$done") && ec.fr != nil {
 		key := fmt.Sprintf("X:loop%s@%d", strings.TrimPrefix(name, "$done"), ec.fr.frameID)
 		if !ec.st.has(key) {
